@@ -33,6 +33,19 @@ M = [
     ("c06-no-terminal-reserve", "stochastic.py", "                del my_mol.bond_descriptors[terminal_bond_idx]\n", "                pass\n", ["C06"]),
     ("c06-skip-last-cap", "stochastic.py", "            while len(my_mol.bond_descriptors) > 0:\n                starting_bond_idx = choose_compatible_weight(my_mol.bond_descriptors, None, rng)", "            while len(my_mol.bond_descriptors) > (1 if len(my_mol.bond_descriptors) > 3 else 0):\n                starting_bond_idx = choose_compatible_weight(my_mol.bond_descriptors, None, rng)", ["C06"]),
     ("c05-bond-single", "mol_gen.py", "            self.bond_descriptors[self_bond_idx].bond_type,\n        )\n        self.graph = nx.disjoint_union", "            Chem.BondType.SINGLE,\n        )\n        self.graph = nx.disjoint_union", []),
+    ("c16-term-uses-repeat-total", "molecule.py", "graph_bd, element_bd, term_prob=element_bd.weight / end_weight", "graph_bd, element_bd, term_prob=element_bd.weight / (end_weight if repeat_weight == 0 else repeat_weight)", ["C16"]),
+    ("c16-trans-unnormalised", "molecule.py", "                            G.add_edge(\n                                graph_bd, other_bd, trans_prob=other_bd.weight / total_weight\n                            )\n\n                if isinstance(element, Stochastic) and isinstance(next_element, SmilesToken):", "                            G.add_edge(\n                                graph_bd, other_bd, trans_prob=other_bd.weight\n                            )\n\n                if isinstance(element, Stochastic) and isinstance(next_element, SmilesToken):", ["C16"]),
+    ("c16-skip-compat", "molecule.py", "                    if graph_bd.is_compatible(element_bd) and element_bd.weight > 0:", "                    if element_bd.weight > 0 and (graph_bd.is_compatible(element_bd) or graph_bd.descriptor == element_bd.descriptor == \"<\"):", ["C16"]),
+    ("c16-list-wrong-index", "molecule.py", "                    other_bd = element.bond_descriptors[i]\n                    if p >= 0:", "                    other_bd = element.bond_descriptors[len(prob) - 1 - i]\n                    if p >= 0:", ["C16"]),
+    ("c13-stop-le", "system.py", "        while generated_total_mass < self.system_mass:", "        while generated_total_mass <= self.system_mass:", ["C13"]),
+    ("c13-yield-before-check", "system.py", "            if not mol_gen.fully_generated:\n                raise RuntimeError(\"We expect a fully generated molecule here.\")\n            yield mol_gen", "            yield mol_gen\n            if not mol_gen.fully_generated:\n                raise RuntimeError(\"We expect a fully generated molecule here.\")", ["C13"]),
+    ("c13-no-generable-check", "system.py", "        if not self.generable:\n            raise RuntimeError(\"Generable system required\")", "        pass", []),  # equivalent: system_mass / element.generate refuse anyway
+    ("c13-mass-not-counted", "system.py", "            generated_total_mass += mol_gen.weight\n", "            generated_total_mass += mol_gen.weight if mol_idx == 0 else 0.5 * mol_gen.weight\n", ["C13"]),
+    ("c12-no-sum-check", "system.py", "    if num_fractions == len(molecules) and abs(total_fraction - 100) > 1e-6:", "    if False:", ["C12"]),
+    ("c12-remainder-wrong", "system.py", "        weight = 100.0 - total_fraction\n", "        weight = 100.0 - total_fraction if len(molecules) < 3 else 100.0 - total_fraction / 2\n", ["C12"]),
+    ("c12-ignore-caller-mass", "system.py", "    if system_molweight:\n        estimated_weights.append(system_molweight)", "    if system_molweight and len(molecules) < 2:\n        estimated_weights.append(system_molweight)", ["C12"]),
+    ("c12-setter-factor", "mixture.py", "            self._relative_mass = 100 * self._absolute_mass / mass", "            self._relative_mass = self._absolute_mass / mass", ["C12"]),
+    ("c14-uniform-pick", "system.py", "            mol_idx = rng.choice(\n                range(len(relative_fractions)), p=relative_fractions / np.sum(relative_fractions)\n            )\n            mol = self._molecules[mol_idx]\n            mol_gen = mol.generate(rng=rng)\n            generated_total_mass", "            mol_idx = rng.choice(range(len(relative_fractions)))\n            mol = self._molecules[mol_idx]\n            mol_gen = mol.generate(rng=rng)\n            generated_total_mass", ["C14"]),
     ("c03-dollar-bonds-angle", "bond.py", '        if self.descriptor == "$" and other.descriptor == "$":\n            return True', '        if self.descriptor == "$" and other.descriptor in ("$", "<"):\n            return True', ["C03"]),
     ("c03-id-above-9", "bond.py", "        if self.descriptor_id != other.descriptor_id:", '        if self.descriptor_id != other.descriptor_id and (self.descriptor_id == "" or other.descriptor_id == "" or self.descriptor_id < 10):', ["C03"]),
 ]
